@@ -9,8 +9,11 @@
    A perturbation stream (one ill-typing edit of an accepted program) checks that both reject the same edits.
 3. Search — the property's own oracle on the real code, for model programs, their perturbations, the known
    unsound shapes (explicit replays), a wider template stream outside the model (wide.py) and a flow fuzzer
-   (flow.py: nested try frames, or/and over subclass-related falsy-capable classes, repeated truthiness tests,
-   speculative uses that are kept only where mypy accepts them): run what mypy accepts under CPython
+   (flow.py: nested try frames, or/and over subclass-related falsy-capable classes — also @final ones that inherit
+   `__bool__`/`__len__` —, repeated truthiness tests, speculative uses that are kept only where mypy accepts them)
+   and speculative-statement templates (spec.py: raise forms with Optional operands / causes, overrides putting
+   positional parameters in front of the base's *args / **kwargs, final classes × truthiness): run what mypy
+   accepts under CPython
    and look for (i) TypeError/AttributeError, (ii) a probe value outside mypy's exported type, (iii) execution
    of a block mypy marked unreachable.
 """
@@ -493,10 +496,11 @@ def outside(ctx: Ctx, cases: list[Case], stream: str) -> None:
         if mres[c.name].get("crash"):
             raise ToolFailure(f"mypy crashed on {c.name}: {mres[c.name]['crash']}")
         ctx.dist(f"{stream}:mypy", "accepts" if c in accepted else "rejects")
-        if c not in accepted and stream == "wide":
-            ctx.coverage.setdefault("wide_rejected_samples", [])
-            if len(ctx.coverage["wide_rejected_samples"]) < 3:
-                ctx.coverage["wide_rejected_samples"].append({"templates": c.note, "errors": mres[c.name]["errors"][:3]})
+        if c not in accepted and stream in ("wide", "flow", "spec"):
+            key = f"{stream}_rejected_samples"
+            ctx.coverage.setdefault(key, [])
+            if len(ctx.coverage[key]) < 3:
+                ctx.coverage[key].append({"templates": c.note, "errors": mres[c.name]["errors"][:3]})
     jobs = [{"name": c.name, "src": c.src, "calls": c.pycalls, "dead": mres[c.name]["dead"]} for c in accepted]
     rres = R.run_batch(jobs, ctx.tmp) if jobs else []
     for c, rr in zip(accepted, rres):
@@ -526,7 +530,6 @@ def wide_stream(ctx: Ctx, n: int) -> None:
 def flow_stream(ctx: Ctx, n: int) -> None:
     """search only: the flow fuzzer (try/except/finally, or/and over related falsy-capable classes, repeated
     truthiness tests) with speculative uses — see flow.py"""
-    import re
     from . import flow
     fz = flow.Flow(ctx.rng)
     mods = []
@@ -535,6 +538,25 @@ def flow_stream(ctx: Ctx, n: int) -> None:
         mods.append((f"fl{i}", lines, spec, calls))
     for k, v in sorted(fz.stats.items()):
         ctx.dist("flow_constructs", k, v)
+    two_phase(ctx, mods, "flow")
+
+
+def spec_stream(ctx: Ctx, n: int) -> None:
+    """search only: speculative-statement templates (raise forms, overrides in front of *args / **kwargs, final
+    classes and truthiness) — see spec.py"""
+    from . import spec
+    sp = spec.Spec(ctx.rng)
+    mods = []
+    for i in range(n):
+        lines, sm, calls = sp.module()
+        mods.append((f"sp{i}", lines, sm, calls))
+    for k, v in sorted(sp.stats.items()):
+        ctx.dist("spec_constructs", k, v)
+    two_phase(ctx, mods, "spec")
+
+
+def two_phase(ctx: Ctx, mods: list, stream: str) -> None:
+    import re
     for i in range(0, len(mods), BATCH):
         chunk = mods[i:i + BATCH]
         # phase 1: which speculative uses does mypy reject?  (they are reverted to plain probes)
@@ -542,7 +564,7 @@ def flow_stream(ctx: Ctx, n: int) -> None:
         cases = []
         for name, lines, spec, calls in chunk:
             if res[name].get("crash"):
-                raise ToolFailure(f"mypy crashed on flow program {name}: {res[name]['crash']}")
+                raise ToolFailure(f"mypy crashed on {stream} program {name}: {res[name]['crash']}")
             bad = set()
             for e in res[name]["errors"]:
                 m = re.match(r"[^:]+:(\d+):", e)
@@ -551,14 +573,14 @@ def flow_stream(ctx: Ctx, n: int) -> None:
             stray = [ln for ln in bad if ln not in spec]
             if stray:
                 # not one of the planted uses: the generator produced an ill-typed program (a tool defect)
-                raise ToolFailure(f"flow generator produced an ill-typed program {name}: {res[name]['errors'][:3]}")
+                raise ToolFailure(f"{stream} generator produced an ill-typed program {name}: {res[name]['errors'][:3]}")
             lines = list(lines)
             for ln in bad:
                 lines[ln] = spec[ln]
-            ctx.dist("flow_speculative_uses", "rejected by mypy (reverted)", len(bad))
-            ctx.dist("flow_speculative_uses", "accepted by mypy (kept)", len(spec) - len(bad))
-            cases.append(Case(name, None, [], "flow", "", src="\n".join(lines) + "\n", pycalls=calls))
-        outside(ctx, cases, "flow")
+            ctx.dist(f"{stream}_speculative_uses", "rejected by mypy (reverted)", len(bad))
+            ctx.dist(f"{stream}_speculative_uses", "accepted by mypy (kept)", len(spec) - len(bad))
+            cases.append(Case(name, None, [], stream, "", src="\n".join(lines) + "\n", pycalls=calls))
+        outside(ctx, cases, stream)
 
 
 def main(ctx: Ctx) -> None:
@@ -566,7 +588,7 @@ def main(ctx: Ctx) -> None:
     ctx.coverage["rule"] = ("one case = one generated program (distinct by its Lean term / source text) with its argument "
                             "vectors; all are non-trivial (≥ 2 classes, functions with narrowing sites, loops, calls). "
                             "Streams: model (two-sided correspondence + oracle), perturbed (one ill-typing edit), known "
-                            "(one replay per known unsound shape), wide (outside the model: oracle only = testing)")
+                            "(one replay per known unsound shape), wide / flow / spec (outside the model: oracle only = testing)")
     proved = ctx.prove("MypyVerif.Props.C01", MODEL_FILES + PROOF_FILES)
     ctx.trusted("model: MiniPy stages 1–3 (Model/Lang.lean = CPython's behaviour on the fragment, Model/LangTc.lean = mypy's rules "
                 "on the fragment); both are validated against the real CPython / mypy on every run, on generated programs only",
@@ -582,6 +604,7 @@ def main(ctx: Ctx) -> None:
     perturb_stream(ctx, base, ctx.pick(200, 2000))
     wide_stream(ctx, ctx.pick(60, 600))
     flow_stream(ctx, ctx.pick(80, 800))
+    spec_stream(ctx, ctx.pick(40, 400))
     if not proved and not ctx.violations:
         ctx.violation("Lean development for C01 no longer builds", {"broken": ctx.broken_ties}, found_input=False)
 
